@@ -46,6 +46,7 @@ def parseOp (s : String) : Op :=
       | "entmut", [k, n] => .entmut k n
       | "entwith", [k, n] => .entwith k n
       | "entkey", [k] => .entkey k
+      | "goi", [k, n] => .goi k n
       | "idx", [k] => .idx k
       | "idxmut", [k] => .idxmut k
       | "idxset", [k, n] => .idxset k n
